@@ -127,6 +127,7 @@ def textHandler : Handler := fun _ impl =>
         ("-", if vq != "ok" then "FAIL Query: " ++ (vq.drop 5).toString
               else if ve != "ok" then "FAIL Exec: " ++ (ve.drop 5).toString
               else if vr != "ok" then "FAIL read/1: " ++ (vr.drop 5).toString
+              else if (headWord hr).1 == "wedged-host" then "FAIL the HOST goroutine is wedged: a call that has no work to do did not return: " ++ hr
               else if hr != "ok" then "FAIL the HOST goroutine panicked using the result (no recover protects the caller): " ++ hr
               else "ok")
     | _ => ("-", "FAIL unexpected harness output")
